@@ -34,7 +34,7 @@ def replay(pid, h, r):
     work = os.path.join(kani.SCRATCH, "replay", short)
     shutil.rmtree(work, ignore_errors=True)
     os.makedirs(work)
-    out_dir = os.path.join(VERIF, "replays", pid)
+    out_dir = os.path.join(os.environ.get("VERIF_REPLAY_DIR", os.path.join(VERIF, "replays")), pid)
     os.makedirs(out_dir, exist_ok=True)
     out_path = os.path.join(out_dir, short + ".rs")
     log = os.path.join(work, "replay.log")
